@@ -564,7 +564,7 @@ def linked_to_model(nodes):
                     actmap[c.id] = act_index(c.s)
                 except ConvError:
                     actmap[c.id] = -1
-            elif c.t == T_NIL:
+            elif c.t == T_NIL and c.s == "<undefined>":
                 out.append("(N)")
             else:
                 out.append("(B %s)" % conv_expr(c, idx))
@@ -587,3 +587,66 @@ def flags_of(nodes):
         if n.t == T_RULE:
             walk(n, (i,))
     return res
+
+
+# ---------------------------------------------------------------- python AST -> model expression (elaboration)
+def elab(e, nameid):
+    """the tree the front end builds for a python-side expression, in the model's syntax (names by id)"""
+    t = e[0]
+    if t == "dot":
+        return "(dot)"
+    if t == "chr":
+        return "(c %d)" % e[1]
+    if t == "str":
+        return "(c %d)" % e[1][0] if len(e[1]) == 1 else "(seq %s)" % " ".join("(c %d)" % c for c in e[1])
+    if t == "istr":
+        def one(c):
+            ch = chr(c)
+            if ch.isascii() and ch.isalpha():
+                return "(alt (c %d) (c %d))" % (ord(ch.lower()), ord(ch.upper()))
+            return "(c %d)" % c
+        return one(e[1][0]) if len(e[1]) == 1 else "(seq %s)" % " ".join(one(c) for c in e[1])
+    if t == "cls":
+        _, neg, insens, items = e
+        parts = []
+        for i in items:
+            if i[0] == "c":
+                ch = chr(i[1])
+                if insens and ch.isascii() and ch.isalpha():
+                    parts.append("(alt (c %d) (c %d))" % (ord(ch.lower()), ord(ch.upper())))
+                else:
+                    parts.append("(c %d)" % i[1])
+            else:
+                if insens:
+                    lo, hi = chr(i[1]), chr(i[2])
+                    parts.append("(alt (r %d %d) (r %d %d))" % (ord(lo.lower()), ord(hi.lower()), ord(lo.upper()), ord(hi.upper())))
+                else:
+                    parts.append("(r %d %d)" % (i[1], i[2]))
+        body = parts[0] if len(parts) == 1 else "(alt %s)" % " ".join(parts)
+        return "(seq (not %s) (dot))" % body if neg else body
+    if t == "name":
+        return "(n %d)" % nameid(e[1])
+    if t == "pred":
+        return "(p %d)" % e[1]
+    if t == "state":
+        return "(s 0)"
+    if t == "act":
+        return "(a %d)" % e[1]
+    if t == "nil":
+        return "(nil)"
+    if t in ("seq", "alt"):
+        return "(%s %s)" % (t, " ".join(elab(x, nameid) for x in e[1]))
+    return "(%s %s)" % (t, elab(e[1], nameid))
+
+
+def raw_model(rules):
+    ids = {}
+
+    def nameid(n):
+        if n not in ids:
+            ids[n] = len(ids)
+        return ids[n]
+    for n, _ in rules:
+        nameid(n)
+    defs = " ".join("(def %d %s)" % (nameid(n), elab(e, nameid)) for n, e in rules)
+    return "(rg %s)" % defs, ids
